@@ -7,8 +7,8 @@ from dataclasses import replace
 from typing import Any, List, Optional
 
 from . import schema
-from .domains import (BoolV, BoundV, ClsV, Const, DictE, ElemE, ExcV, ExtV, FuncV, IdxE, IterV, LenV, ListE,
-                      MethV, ModV, NoneV, NumV, ObjE, Ref, S, State, StrV, TupleV, Unknown, Val)
+from .domains import (BoolV, BoundV, ClsV, Const, DictE, ElemE, ExcV, ExtV, FuncV, IdxE, IterV, LamV, LenV, ListE,
+                      PartV, MethV, ModV, NoneV, NumV, ObjE, Ref, S, State, StrV, TupleV, Unknown, Val)
 from .front import AnalysisError, norm
 
 
@@ -21,6 +21,10 @@ STR_METHODS_STR = {'strip', 'lstrip', 'rstrip', 'lower', 'upper', 'title', 'repl
                    'casefold', 'zfill', 'ljust', 'rjust', 'center', 'removeprefix', 'removesuffix', 'decode', 'encode'}
 STR_METHODS_BOOL = {'startswith', 'endswith', 'isdigit', 'isalpha', 'isspace', 'isalnum', 'isnumeric', 'islower', 'isupper'}
 
+
+
+class _InexactDict(Exception):
+    pass
 
 class ModelMixin2:
     # ------------------------------------------------------------ len_cmp
@@ -286,6 +290,10 @@ class ModelMixin2:
                 return NoneV(mo(v.origin))
             if isinstance(v, BoundV):
                 return BoundV(mv(v.recv), v.qual)
+            if isinstance(v, LamV):
+                return LamV(v.key, tuple((n, mv(x)) for n, x in v.captured), tuple(mv(x) for x in v.defaults), v.depth)
+            if isinstance(v, PartV):
+                return PartV(v.kind, mv(v.func) if v.func is not None else None, tuple(mv(x) for x in v.args), tuple((k, mv(x)) for k, x in v.kwargs))
             return v
         for old, new in mapping.items():
             e = st.heap[old]
@@ -366,6 +374,18 @@ class ModelMixin2:
                 visit_o(x.origin)
             elif isinstance(x, BoundV):
                 visit_v(x.recv)
+            elif isinstance(x, LamV):
+                for _, y in x.captured:
+                    visit_v(y)
+                for y in x.defaults:
+                    visit_v(y)
+            elif isinstance(x, PartV):
+                if x.func is not None:
+                    visit_v(x.func)
+                for y in x.args:
+                    visit_v(y)
+                for _, y in x.kwargs:
+                    visit_v(y)
 
         def visit(sym):
             if sym in seen or sym not in st.heap:
@@ -647,12 +667,19 @@ class ModelMixin2:
 
         first = self.ev(gens[0].iter, st)
         exact_done = []
-        if len(gens) == 1 and kind != 'dict':
+        if len(gens) == 1:
             # a short sequence known element by element (tuple, literal list) is mapped element by element: the result is exact
             rest = []
             for it, s1 in first:
                 sp = None if isinstance(it, Raise) else self.iter_spec(it, s1, gens[0].iter)
                 if sp is not None and not isinstance(sp, Raise) and sp.exact is not None and len(sp.exact) <= 8:
+                    if kind == 'dict':
+                        # exact only when every key is a concrete value; tried on a copy, the general path otherwise
+                        try:
+                            exact_done.extend(self._comp_exact(e, gens[0], sp, s1.copy(), kind, elt_eval, names, saved, saved_comp))
+                        except _InexactDict:
+                            rest.append((it, s1))
+                        continue
                     exact_done.extend(self._comp_exact(e, gens[0], sp, s1, kind, elt_eval, names, saved, saved_comp))
                 else:
                     rest.append((it, s1))
@@ -811,7 +838,15 @@ class ModelMixin2:
         for v, s in final + [(None, s) for _, s in ()]:
             out.append((v, s))
         for acc, s in paths:
-            stage = 'map:' + norm(e.elt)
+            stage = 'map:' + norm(e.elt if kind != 'dict' else e.value)
+            if kind == 'dict':
+                if not all(self._is_concrete(kv.items[0]) for kv in acc):
+                    raise _InexactDict()
+                d = {}
+                for kv in acc:
+                    d[kv.items[0]] = kv.items[1]
+                out.append((Ref('dict', s.new(DictE(tuple(d.items()), True))), s))
+                continue
             if kind == 'set':
                 items = tuple(dict.fromkeys(acc)) if all(isinstance(x, (Const, ClsV)) for x in acc) else acc
                 sym = s.new(ListE('set', 0 if len(items) != len(acc) else len(items), len(items), items=items, ordered=False, stages=('literal', stage)))
